@@ -340,6 +340,9 @@ func TestVerif_C11_loop(t *testing.T) {
 				return c11GenPols(r, []c11Auth{a0}, limit, hdrPool)
 			})
 			var j int
+			if f.shared {
+				s.Count("args:clients-from-caller-owned-array")
+			}
 			j, scen = f.pick(r)
 			cl, ps = f.clients[j], f.want[j]
 			fam = "c11fam " + f.encOps() + " " + strconv.Itoa(j) + " "
@@ -634,7 +637,7 @@ func TestVerif_C11_loop(t *testing.T) {
 		s.Case(line, ans, ok, "", m > 0, human)
 	}
 	s.FinishRequire("kind:api", "kind:raw", "direct", "reused-client", "family:original", "family:set-on-clone", "family:clone-inherits",
-		"family:clone-of-clone-inherits", "family:clone-inherits,parent-reconfigured-later",
+		"family:clone-of-clone-inherits", "family:clone-inherits,parent-reconfigured-later", "args:clients-from-caller-owned-array",
 		"outcome:resp", "outcome:refused", "outcome:badloc", "status:301", "status:302", "status:303", "status:307", "status:308",
 		"loc:abs", "loc:net", "loc:path", "loc:bad", "loc:missing", "loc:userinfo", "loc:empty-host", "set-cookie-on-reply",
 		"host-override", "host-override:request", "host-override:client", "host-field-kept-on-relative-redirect", "body-resent", "method-rewritten",
